@@ -633,6 +633,26 @@ func (v *Verifier) soaStore(c Value, idx *Term, rest []PE, nv Value) Value {
 	return nil
 }
 
+// unmodelledKey: the identity of a cell of a slice whose contents are not modelled (object, index term, component
+// path); "" when the index is not a single term.
+func unmodelledKey(q *PtrV) string {
+	if len(q.Path) == 0 {
+		return ""
+	}
+	var b strings.Builder
+	fmt.Fprintf(&b, "%d|", q.Obj.ID)
+	for _, pe := range q.Path {
+		if pe.T != nil && pe.T.IsConst() {
+			fmt.Fprintf(&b, "i%s.", pe.T.K.String())
+		} else if pe.T != nil {
+			fmt.Fprintf(&b, "t%p.", pe.T)
+		} else {
+			fmt.Fprintf(&b, "i%d.", pe.I)
+		}
+	}
+	return b.String()
+}
+
 // ---------- memory ----------
 
 func (v *Verifier) content(st *State, o *Object) Value {
@@ -704,8 +724,21 @@ func (fr *Frame) load(st *State, p Value) Value {
 			if len(q.Path) > 1 {
 				t = fr.v.typeAtPath(t, q.Path[1:])
 			}
-			fr.v.assume("elements of slices of aggregates (e.g. [][]byte) are not modelled: every load yields an arbitrary value; stores into them are not tracked except for the escape check")
-			return fr.v.symValue(fmt.Sprintf("%s!elem!%d", sanitize(q.Obj.Name), fr.v.fresh), t, q.Obj.Entry)
+			fr.v.assume("elements of slices of aggregates (e.g. [][]byte) are not modelled: a load yields an arbitrary value (the same one when the same cell is read again with no store to that slice in between); stores into them are not tracked except for the escape check")
+			key := unmodelledKey(q)
+			if key != "" {
+				if c, ok := st.uload[key]; ok {
+					return c
+				}
+			}
+			nv := fr.v.symValue(fmt.Sprintf("%s!elem!%d", sanitize(q.Obj.Name), fr.v.fresh), t, q.Obj.Entry)
+			if key != "" {
+				if st.uload == nil {
+					st.uload = map[string]Value{}
+				}
+				st.uload[key] = nv
+			}
+			return nv
 		}
 		return fr.v.getPath(fr.v.content(st, q.Obj), q.Path)
 	}
@@ -839,6 +872,13 @@ func (fr *Frame) store(st *State, p Value, nv Value, cond *Term) {
 		fr.v.noteWrite(fr, st, q.Obj, q.Path)
 		fr.v.noteEscape(fr, st, nv, q.Obj)
 		if q.Obj.Unmodelled {
+			// the cells of this slice may have changed: forget what was read from it
+			pre := fmt.Sprintf("%d|", q.Obj.ID)
+			for k := range st.uload {
+				if strings.HasPrefix(k, pre) {
+					delete(st.uload, k)
+				}
+			}
 			return
 		}
 		old := fr.v.content(st, q.Obj)
